@@ -160,6 +160,14 @@ def case_generic(ctx, i, rng):
         return
     cfg = ok.value
     ctx.count("mon.accepted_configs")
+    if not spec.get("sub") and rng.random() < 0.35:
+        # a default config file that gives values, among others, for arguments declared without a default
+        dcf = os.path.join(ctx.workdir, f"c8_defaults_{i % 20}.json")
+        with open(dcf, "w") as f:
+            json.dump(obj, f)
+        p.default_config_files = [dcf]
+        w = dict(w, default_config_file=short(obj, 300))
+        ctx.count("st.parser_with_default_config_file")
     for opname, fn, args, kw, ro in (
         ("validate", p.validate, [cfg], {}, True),
         ("dump.yaml", p.dump, [cfg], {}, True),
